@@ -212,17 +212,34 @@ def worker(case):
                 pats |= {"zz", "*", "a*", "A*"}
                 single = sorted(pats)
                 multi = [("a", "a*"), ("a*", "a"), ("a", "A"), ("a", "a"), ("zz", "a"), ("r[0]", "a*"), ("a*", "r[0]"), ("r[0]", "r0")]
-                if vals and vals[-1]:
-                    multi.append((vals[-1], vals[-1][:1] + "*"))
+                for v in [x for x in vals if x][-2:]:
+                    # an exact name before / after a wildcard that covers it, and the same exact name twice
+                    multi += [(v, v[:1] + "*"), (v[:1] + "*", v), (v, v), ("*", v)]
                 regs = sorted(set([re.escape(v) for v in vals[:4] if v] + ["a.*", "[aA]b?", ".*", "("]))
                 for is_case in (True, False):
                     for is_re in (False, True):
                         plist = [(p,) for p in (regs if is_re else single)] + ([] if is_re else multi)
+                        # no pattern at all (an empty list / tuple) selects nothing; the empty string selects no element with a non-empty value
+                        plist += [(), ((),)] + ([] if hier or is_re else [("",)])
                         for pt in plist:
                             kk = dict(kw, is_case=is_case, is_re=is_re)
                             if not hier:
                                 kk["key"] = key
                             arg = pt[0] if len(pt) == 1 else list(pt)
+                            if pt == ((),):
+                                pt, arg = (), ()
+                            if pt == ("",):
+                                try:
+                                    G0 = list(fn(root, "", **kk))
+                                except Exception as ex:
+                                    probs.append(("query-raised:%s:%s" % (tagbase, type(ex).__name__), "'' %r" % (kk,)))
+                                    continue
+                                nq += 1
+                                # (whether an element *lacking* the key counts as having the value "" is not fixed)
+                                if any(value(x, key, hier) != "" for x in G0):
+                                    probs.append(("pattern-result-extra:%s:%s:empty-string:%s:lookup=%s" % (fname, key, policy, "on" if lookup_on else "off"),
+                                                  "%s(%s, '', %r) returned %d element(s)" % (fname, rname, kk, len(G0))))
+                                continue
                             try:
                                 G = [ident(x) for x in fn(root, arg, **kk)]
                             except Exception as ex:
